@@ -82,6 +82,13 @@ def bank():
     for mx in range(0, 5):
         for k in range(0, mx + 3):
             yield chain_graph(k), "gemini://h0.example/", mx, f"chain of {k} redirects"
+        # 'dir -> dir/' canonicalisation style hops, finite and endless
+        sl = {"gemini://a.example/d": (30, "gemini://a.example/d/"), "gemini://a.example/d/": (30, "gemini://b.example/e"),
+              "gemini://b.example/e": (31, "gemini://b.example/e/"), "gemini://b.example/e/": (20, "text/gemini")}
+        yield sl, "gemini://a.example/d", mx, "a -> a/ -> b -> b/ -> final"
+        yield {"gemini://a.example/docs": (30, "gemini://a.example/docs/"), "gemini://a.example/docs/": (30, "gemini://a.example/docs")}, "gemini://a.example/docs", mx, "docs <-> docs/ cycle"
+        grow = {"gemini://a.example/x" + "/" * i: (30, "gemini://a.example/x" + "/" * (i + 1)) for i in range(0, 12)}
+        yield grow, "gemini://a.example/x", mx, "every answer is 'same URL plus /' (12 deep)"
         loop = {"gemini://a.example/": (31, "gemini://b.example/"), "gemini://b.example/": (30, "gemini://a.example/")}
         yield loop, "gemini://a.example/", mx, "2-cycle"
         yield {"gemini://a.example/": (30, "gemini://a.example/")}, "gemini://a.example/", mx, "self-loop"
